@@ -754,7 +754,7 @@ def canon_src(src: str, limit: int = 160) -> str:
     return norm_text(node.value if isinstance(node, ast.Expr) else node, limit)
 
 
-def norm_text(n, limit: int = 160) -> str:
+def norm_text(n, limit: int = 100000) -> str:
     """Normalised text of a construct for finding keys and rule comparisons (whitespace-insensitive, no positions, canonical comparison orientation and keyword order)."""
     s = canon_unparse(n) if not isinstance(n, str) else n
     s = " ".join(s.split())
